@@ -11,7 +11,7 @@ from vcore import clist, z, zlist
 TIE = 'Tie.C14'
 DEN = 4096
 SHARD = 60
-KINDS = ['cubic', 'ortho', 'mono', 'hexlike', 'tri', 'tri_full']
+KINDS = ['cubic', 'ortho', 'mono', 'hexlike', 'hex', 'tri', 'tri_full']
 SYMS = ['Li', 'Na', 'S', 'O']
 RULE = ('cases = trajectories (2-4 atoms of different masses, 8-40 frames, 2^-12 grid, steps below 0.3 cell) in 6 lattice classes (optionally rotated) x ion charge '
         '1-3 x dimensions 1-3 x temperature x time step x integer/dyadic cell scale k and time scale s; the rational metrics (density, molarity, tracer and '
@@ -96,6 +96,17 @@ def oracle(case, out):
     b, c, t = out['base'], out['cell'], out['time']
     k, s = case['k'], case['s']
     # formulas on the implementation's own intermediates
+    vol = abs(float(np.linalg.det(np.array(case['m'], dtype=float))))
+    n_at = len(case['species'])
+    if not _close(b['density'], n_at / (vol * 1e-30), 1e-9):
+        fs.append(('metrics/particle-density', f'particle density {b["density"]} but N / V = {n_at / (vol * 1e-30)} (lattice {case["m"]})'))
+    if not _close(b['molarity'], b['density'] * 1e-3 / 6.02214076e23, 1e-9):
+        fs.append(('metrics/molarity', f'mol/l {b["molarity"]} inconsistent with the particle density'))
+    want_c = (1.602176634e-19 ** 2) * case['z'] ** 2 * b['dtracer'] * (n_at / (vol * 1e-30)) / (1.380649e-23 * case['temp'])
+    if not _close(b['conduct'], want_c, 1e-9):
+        fs.append(('metrics/nernst-einstein', f'tracer conductivity {b["conduct"]} but the Nernst-Einstein formula gives {want_c}'))
+    if b['dcom'] and not _close(b['haven'], b['dtracer'] / b['dcom'], 1e-9):
+        fs.append(('metrics/haven', 'Haven ratio is not tracer diffusivity / centre-of-mass diffusivity'))
     dist = np.array(b['dist'])
     sp = np.diff(dist, prepend=0)
     if not np.allclose(sp, np.array(b['speed']), rtol=1e-12, atol=1e-15):
